@@ -704,7 +704,7 @@ func TestC10BinaryBurst(t *testing.T) {
 		defer cancel()
 		host, err := dialWS(p.addr, nodeIdent(0), 1)
 		if err != nil {
-			rt.Fatalf("[setup failed] dial: %v", err)
+			rt.Fatalf("%s", p.dialFailure(err))
 		}
 		defer host.end("close")
 		var gmu sync.Mutex
